@@ -37,6 +37,7 @@ extern "C" {
     fn sqlite3_changes(db: *mut Sqlite3) -> c_int;
     fn sqlite3_libversion() -> *const c_char;
     fn sqlite3_config(op: c_int, ...) -> c_int;
+    fn sqlite3_db_config(db: *mut Sqlite3, op: c_int, ...) -> c_int;
 }
 
 const SQLITE_ROW: c_int = 100;
@@ -105,6 +106,11 @@ impl Db {
         let mut p: *mut Sqlite3 = std::ptr::null_mut();
         let rc = unsafe { sqlite3_open(b":memory:\0".as_ptr() as *const c_char, &mut p) };
         assert_eq!(rc, 0, "sqlite3_open failed");
+        // no double-quoted string literals: an unresolved "name" must be an error, not the text 'name'
+        unsafe {
+            sqlite3_db_config(p, 1013 /* SQLITE_DBCONFIG_DQS_DML */, 0 as c_int, std::ptr::null_mut::<c_int>());
+            sqlite3_db_config(p, 1014 /* SQLITE_DBCONFIG_DQS_DDL */, 0 as c_int, std::ptr::null_mut::<c_int>());
+        }
         Db { p }
     }
     fn errmsg(&self) -> String {
